@@ -14,6 +14,72 @@ EXPLANATION = ("Static rules over quinn-proto MIR: (a) GUARDED-READ: each of the
 RULE = "rule instances = (rule, site) pairs: consuming-read sites, clamp sites, container growth sites, guards; non-trivial = bound to a real site"
 
 
+# --------------------------------------------------------------------------
+# local helpers (exact shapes)
+# --------------------------------------------------------------------------
+
+_ADD = ('saturating_add', 'checked_add', 'wrapping_add')
+_SUB = ('saturating_sub', 'checked_sub', 'wrapping_sub')
+
+
+def _arith(d, op, methods):
+    """operands of an addition / subtraction written as an operator or as a saturating/checked/wrapping method; else None"""
+    if d[0] == 'bin' and d[1] == op:
+        return (d[2], d[3])
+    if d[0] == 'call' and d[1].rsplit('::', 1)[-1] in methods and len(d[3]) == 2:
+        return (d[3][0], d[3][1])
+    return None
+
+
+def _rel_edges(F, body, relpred):
+    """(Branch, truth, target) of every branch edge on which a relation satisfying relpred(op, a, b) holds (no literal-offset
+    filtering: for relations whose operands legitimately carry literals)"""
+    out = []
+    for br in branches(F, body):
+        for truth in (True, False):
+            rel = relation_on(br.desc, truth)
+            if rel is not None and relpred(*rel):
+                out.append((br, truth, br.target(1 if truth else 0)))
+    return out
+
+
+def _closure_bodies(F, d):
+    """closure bodies constructed inside descriptor d"""
+    res = []
+    for x in walk(d):
+        if x[0] == 'agg' and x[1] == 'closure':
+            res.extend(b for b in F.bodies.values() if b.kind == 'closure' and b.canon == x[2])
+    return res
+
+
+def _int_consts(d):
+    out = []
+    for x in walk(d):
+        if x[0] == 'const' and x[1] == 'int':
+            try:
+                out.append(int(x[2]))
+            except (TypeError, ValueError):
+                out.append(1 << 64)
+    return out
+
+
+def _reach_constrained(body, starts, choose, avoid=()):
+    """blocks reachable from `starts` when choose(bb) (-> list of allowed successors or None) restricts switch blocks"""
+    avoid = set(avoid)
+    seen = set()
+    stack = [s for s in starts]
+    while stack:
+        b = stack.pop()
+        if b in seen or b in avoid:
+            continue
+        seen.add(b)
+        succ = choose(b)
+        if succ is None:
+            succ = body.succ[b]
+        stack.extend(x for x in succ if x not in seen)
+    return seen
+
+
 def guarded_reads(ctx, rule='a'):
     F = ctx.facts
     ss = G.sites(F)
@@ -132,8 +198,24 @@ def rule_c(ctx):
     # 2. retire_cids in the NewConnectionId arm
     pp = ctx.pfn('Connection::process_payload')
     ext = [c for c in pp.calls() if c.is_('Vec::extend', 'Extend::extend') and D.has_field(arg_desc(F, c, 0), 'retire_cids')]
-    guard_error(ctx, 'c', 'pending_retired_cids_capped', pp, lambda o, x, y: o == 'Lt' and D.has_const(x, named='MAX_PENDING_RETIRED_CIDS') or (o == 'Lt' and 'MAX_PENDING_RETIRED_CIDS' in D.render(x)),
-                code='CONNECTION_ID_LIMIT_ERROR', protect=[c.bb for c in ext], what='len + retired > MAX_PENDING_RETIRED_CIDS')
+    ranges = [arg_desc(F, c, 1) for c in ext]
+
+    def retired_cap(o, x, y):
+        # MAX < len(retire_cids) + (R.end - R.start), R = the very range that is appended
+        if not (o == 'Lt' and x[0] == 'const' and (x[3] == 'MAX_PENDING_RETIRED_CIDS' or x[3].endswith('::MAX_PENDING_RETIRED_CIDS'))):
+            return False
+        terms = _arith(y, 'Add', _ADD)
+        if terms is None:
+            return False
+        for cur, new in (terms, terms[::-1]):
+            if not (cur[0] == 'call' and cur[1].endswith('::len') and D.has_field(cur, 'retire_cids')):
+                continue
+            sub = _arith(new, 'Sub', _SUB)
+            if sub and any(sub[0] == ('field', r, 'end') and sub[1] == ('field', r, 'start') for r in ranges):
+                return True
+        return False
+    guard_error(ctx, 'c', 'pending_retired_cids_capped', pp, retired_cap,
+                code='CONNECTION_ID_LIMIT_ERROR', protect=[c.bb for c in ext], what='len + (retired.end - retired.start) > MAX_PENDING_RETIRED_CIDS, retired = the appended range')
     ctx.floor('c', 'retire_cids_extend_sites', len(ext), 1)
     n += len(ext)
     # 3. CidQueue::insert index bound
@@ -146,11 +228,45 @@ def rule_c(ctx):
     eh = ctx.pfn('Endpoint::handle')
     push = [c for c in eh.calls_to('Vec::push') if D.has_field(arg_desc(F, c, 0), 'datagrams')]
     okb = bool(push)
+    missing = []
+
+    def budget_fail_edges(br, counter, limit):
+        """targets of the edges of br on which `counter + len <= config.<limit>` does NOT hold, or None when br is not that test.
+        Accepted: `counter.checked_add(len).is_some_and(|n| n <= config.<limit>)` (the closure's returned value IS the relation with its
+        parameter on the left), or a direct comparison of a sum over `counter` with `config.<limit>`."""
+        d, neg = peel_not(br.desc)
+        if d[0] == 'call' and d[1] == 'Option::is_some_and' and len(d[3]) == 2:
+            recv = d[3][0]
+            if not (recv[0] == 'call' and recv[1].endswith('::checked_add') and any(a[0] == 'field' and a[2] == counter for a in recv[3])):
+                return None
+            cbs = _closure_bodies(F, d[3][1])
+            if len(cbs) != 1:
+                return None
+            rds = [y for _, x in ret_descs(F, cbs[0]) for y in flat(x)]
+            if rds and all(x[0] == 'bin' and x[1] in ('Le', 'Lt') and x[2][0] == 'param' and x[3][0] == 'field' and x[3][2] == limit for x in rds):
+                return [br.target(1 if neg else 0)]
+            return None
+        for truth in (True, False):
+            rel = relation_on(br.desc, truth)
+            if rel and rel[0] in ('Le', 'Lt') and rel[2][0] == 'field' and rel[2][2] == limit:
+                terms = _arith(rel[1], 'Add', ('saturating_add',))
+                if terms and any(a[0] == 'field' and a[2] == counter for a in terms) and not D.const_offsets(rel[1]):
+                    return [br.target(0 if truth else 1)]
+        return None
     for c in push:
-        brs = [br for br in branches(F, eh) if eh.dominates(br.bb, c.bb) and D.has_call(br.desc, 'Option::is_some_and') and (D.has_field(br.desc, 'total_bytes') or D.has_field(br.desc, 'all_incoming_buffers_total_bytes'))]
-        if len(brs) < 2 or any(c.bb in eh.reachable_from(br.target(0), avoid=[br.bb]) for br in brs):
-            okb = False
-    ctx.check(okb, 'c', 'incoming_buffer_capped', eh, eh.where(), 'push only if both per-incoming and total byte budgets hold', 'buffering of early datagrams is no longer capped by incoming_buffer_size / incoming_buffer_size_total')
+        for counter, limit in (('total_bytes', 'incoming_buffer_size'), ('all_incoming_buffers_total_bytes', 'incoming_buffer_size_total')):
+            found = False
+            for br in branches(F, eh):
+                if not eh.dominates(br.bb, c.bb):
+                    continue
+                fe = budget_fail_edges(br, counter, limit)
+                if fe and not any(c.bb in eh.reachable_from(t, avoid=[br.bb]) for t in fe):
+                    found = True
+            if not found:
+                okb = False
+                missing.append('%s + len <= %s' % (counter, limit))
+    ctx.check(okb, 'c', 'incoming_buffer_capped', eh, eh.where(), 'push only if both per-incoming and total byte budgets hold',
+              'buffering of early datagrams is no longer capped by incoming_buffer_size / incoming_buffer_size_total: no dominating test %s whose failing edge avoids the push' % missing)
     n += len(push)
     hf = ctx.pfn('Endpoint::handle_first_packet')
     ins = [c for c in hf.calls_to('Slab::insert') if D.has_field(arg_desc(F, c, 0), 'incoming_buffers')]
@@ -164,7 +280,9 @@ def rule_c(ctx):
     n += 1
     # 6. Assembler::insert -> TooManyChunks / defragment
     ai = ctx.pfn('Assembler::insert')
-    ctx.check(bool(effect_blocks(ctx, ai, variant=('assembler::IllegalOrderedRead', 'x'))) or bool(ai.calls_to('Assembler::defragment')), 'c', 'assembler_chunks_bounded', ai, ai.where(), 'defragment()/TooManyChunks', 'Assembler::insert lost its over-allocation defence')
+    why = assembler_defence(ctx, ai)
+    ctx.check(not why, 'c', 'assembler_chunks_bounded', ai, ai.where(), 'push -> [threshold(buffered) < allocated - buffered] -> defragment() -> [N < data.len()] -> Err(TooManyChunks)',
+              'Assembler::insert lost its over-allocation defence: ' + '; '.join(why))
     n += 1
     # 7. PacketSpace::sent forgets the non-ack-eliciting tail
     ps = ctx.pfn('PacketSpace::sent')
@@ -172,6 +290,55 @@ def rule_c(ctx):
     ctx.check(bool(ge) and bool(ps.calls_to('SentPackets::remove')), 'c', 'non_ack_eliciting_tail_capped', ps, ps.where(), 'tail > MAX -> remove oldest', 'sent-packet tracking of non-ack-eliciting packets is no longer bounded')
     n += 1
     ctx.floor('c', 'capped_containers', n, 8)
+
+
+def assembler_defence(ctx, ai):
+    """the chain push -> over-allocation test -> defragment -> chunk-count test -> Err(TooManyChunks); returns the list of broken links"""
+    F = ctx.facts
+    why = []
+    rets = ai.return_blocks()
+    defr = {c.bb for c in ai.calls_to('Assembler::defragment')}
+    pushes = [c.bb for c in ai.calls() if c.is_('BinaryHeap::push', 'Vec::push', 'VecDeque::push_back') and D.has_field(arg_desc(F, c, 0), 'data')]
+    too_many = effect_blocks(ctx, ai, variant=('assembler::TooManyChunks', 'TooManyChunks'))
+    if not defr:
+        why.append('no call of defragment()')
+    if not pushes:
+        why.append('no push to self.data found')
+    if not too_many:
+        why.append('TooManyChunks is never constructed')
+
+    def over_alloc(o, x, y):
+        # threshold < allocated - buffered, with a threshold that scales with the buffered bytes (not a constant) and a modest floor
+        sub = _arith(y, 'Sub', _SUB)
+        return (o == 'Lt' and sub is not None and D.has_field(sub[0], 'allocated') and D.has_field(sub[1], 'buffered')
+                and D.has_field(x, 'buffered') and all(k <= (1 << 24) for k in _int_consts(x)))
+    e1 = _rel_edges(F, ai, over_alloc)
+    if not e1:
+        why.append('no test `threshold(buffered) < allocated - buffered` (threshold must depend on the buffered bytes; constants <= 16 MiB)')
+    for br, truth, tgt in e1:
+        if path_avoiding(ai, [tgt], rets, defr) is not None:
+            why.append('over-allocation edge at %s can return without defragment()' % br.where())
+    if e1 and pushes and not any(path_avoiding(ai, ai.succ[p], rets, {br.bb for br, _, _ in e1}) is None for p in pushes):
+        why.append('no push to self.data is always followed by the over-allocation test')
+
+    def chunk_count(o, x, y):
+        return (o == 'Lt' and x[0] == 'const' and x[1] == 'int' and all(k <= (1 << 16) for k in _int_consts(x))
+                and y[0] == 'call' and y[1].endswith('::len') and len(y[3]) == 1 and y[3][0][0] == 'field' and y[3][0][2] == 'data')
+    e2 = _rel_edges(F, ai, chunk_count)
+    if not e2:
+        why.append('no test `N < self.data.len()` (N a literal <= 65536)')
+    for br, truth, tgt in e2:
+        if not too_many or path_avoiding(ai, [tgt], rets, too_many) is not None:
+            why.append('chunk-count edge at %s can return without Err(TooManyChunks)' % br.where())
+        if not any(ai.dominates(d, br.bb) for d in defr):
+            why.append('chunk count at %s is not taken after defragment()' % br.where())
+    if e2 and defr and path_avoiding(ai, [t for d in defr for t in ai.succ[d]], rets, {br.bb for br, _, _ in e2}) is not None:
+        why.append('a path from defragment() to return skips the chunk-count test')
+    # the error value is what is returned
+    rd = [y for r, x in ret_descs(F, ai) for y in flat(x)]
+    if not any(x[0] == 'agg' and x[2].endswith('Result::Err') and x[3] and x[3][0][0] == 'agg' and 'TooManyChunks' in x[3][0][2] for x in rd):
+        why.append('Err(TooManyChunks) is not among the returned values')
+    return why
 
 
 def rule_d(ctx):
@@ -182,14 +349,39 @@ def rule_d(ctx):
     ctx.check(len(variants) == 8, 'd', 'connection_error_variants', 'ConnectionError', '', str(variants), 'ConnectionError variant set changed (%d): re-confirm the error->state mapping' % len(variants))
     # unreachable!() arms: panics in handle_packet with messages
     pan = [c for c in hp.calls() if is_panic_call(c) and not any(m in ('debug_assert', 'debug_assert_eq', 'trace', 'debug', 'warn') for m in mac_names(c.mac))]
-    ctx.check(len(pan) <= 4, 'd', 'panic_sites_in_handle_packet', hp, hp.where(), '%d panic sites (3 unreachable! arms + integrity unwrap)' % len(pan), 'new panic site in handle_packet: %s' % [c.where() for c in pan])
-    # the three unreachable variants are constructed nowhere below packet processing
+    # every panic site lies in an arm of the error->state match, and only in the arms confirmed by reading
+    confirmed = ('TimedOut', 'LocallyClosed', 'CidsExhausted')
+    dv = {int(v['discr']): v['name'] for v in ce['variants']}
+
+    def is_err_payload(d):
+        return d[0] == 'discr' and d[1][0] == 'field' and d[1][2] == '0' and d[1][1][0] == 'variant' and d[1][1][2] == 'Err' and D.has_call(d, 'Connection::process_decrypted_packet')
+    sws = [br for br in branches(F, hp) if is_err_payload(br.desc) and all(v in dv for v, _ in br.edges if v is not None)]
+    sws.sort(key=lambda br: -len(br.edges))
+    live = hp.live_blocks()
+    pan = [c for c in pan if c.bb in live]
+    panicking = set()
+    stray = []
+    found = bool(sws) and len(sws[0].edges) >= 3
+    if not found:
+        ctx.bad('d', 'panic_sites_in_handle_packet', hp, hp.where(), 'the match on the ConnectionError produced by packet processing was not found in handle_packet: its panicking arms cannot be enumerated')
+    else:
+        sw = sws[0]
+        arm_reach = {name: hp.reachable_from(sw.target(k), avoid=[sw.bb]) for k, name in dv.items()}
+        for c in pan:
+            vs = {name for name, rs in arm_reach.items() if c.bb in rs}
+            if not vs or len(vs) == len(dv):
+                stray.append(c.where())     # outside the match (or in its common tail)
+            else:
+                panicking |= vs
+        extra = sorted(panicking - set(confirmed))
+        ctx.check(not stray and not extra, 'd', 'panic_sites_in_handle_packet', hp, sw.where(), '%d panic sites, all inside the arms %s of the error->state match' % (len(pan), sorted(panicking)),
+                  'new panic site in handle_packet: %s' % ('; '.join((['outside the error match: %s' % stray] if stray else []) + (['arm(s) %s now panic' % extra] if extra else []))))
+    # the variants with a panicking arm are constructed nowhere below packet processing
     below = reach_set(F, [ctx.pfn('Connection::process_decrypted_packet'), ctx.pfn('Connection::decrypt_packet')])
-    for v in ('TimedOut', 'LocallyClosed', 'CidsExhausted'):
+    for v in (sorted(panicking, key=lambda n: list(dv.values()).index(n)) if found else confirmed):
         cons = [c for c in constructions(F, 'connection::ConnectionError', v, crate='quinn_proto') if F.root_of(c.body).id in below]
         ctx.check(not cons, 'd', 'unreachable_arm_is_dead_' + v, hp, hp.where(), 'ConnectionError::%s is never constructed below process_decrypted_packet (%d functions)' % (v, len(below)),
                   'ConnectionError::%s can now be produced by packet processing (%s) but handle_packet maps it to unreachable!()' % (v, [c.where() for c in cons]))
-
 
 def reach_set(F, roots, depth=12):
     seen = set()
@@ -229,16 +421,78 @@ def rule_f(ctx):
     guard_error(ctx, 'f', 'ack_frequency_delay_too_small', af, lambda o, a, b: o == 'Lt' and D.has_const(b, named='TIMER_GRANULARITY') and D.has_call(a, 'Duration::from_micros'), code='PROTOCOL_VIOLATION', what='max_ack_delay < TIMER_GRANULARITY')
     cr = ctx.pfn('CidState::on_cid_retirement')
     need_code(cr, 'PROTOCOL_VIOLATION', 1, 'retire_unissued_cid')
+    removes = [c.bb for c in cr.calls() if c.is_('HashSet::remove', 'BTreeSet::remove', 'HashMap::remove') and D.has_field(arg_desc(F, c, 0), 'active_seq')]
+    guard_error(ctx, 'f', 'legality_retire_unissued_cid', cr, lambda o, a, b: o == 'Lt' and a[0] == 'field' and a[2] == 'issued' and b[0] == 'param' and b[2] == 'sequence',
+                code='PROTOCOL_VIOLATION', protect=removes, what='sequence > self.issued')
+    guard_error(ctx, 'f', 'legality_retire_unissued_cid', cr, lambda o, a, b: o == 'Eq' and any(x[0] == 'const' and str(x[2]) == '0' and y[0] == 'field' and y[2] == 'cid_len' for x, y in ((a, b), (b, a))),
+                code='PROTOCOL_VIOLATION', protect=removes, what='cid_len == 0')
+    ctx.floor('f', 'retire_cid_removal_sites', len(removes), 1)
     rms = ctx.pfn('StreamsState::received_max_streams')
     guard_error(ctx, 'f', 'max_streams_unrepresentable', rms, lambda o, a, b: o == 'Lt' and D.has_const(a, named='MAX_STREAM_COUNT') and D.has_param(b, name='count'), code='FRAME_ENCODING_ERROR', what='count > MAX_STREAM_COUNT')
     guard_error(ctx, 'f', 'streams_blocked_unrepresentable', pp, lambda o, a, b: o == 'Lt' and D.has_const(a, named='MAX_STREAM_COUNT'), code='FRAME_ENCODING_ERROR', what='limit > MAX_STREAM_COUNT')
     # 0-RTT frame legality
-    z = [br for br in branches(F, pp) if D.has_call(br.desc, 'Header::is_0rtt')]
-    ctx.check(bool(z), 'f', 'zero_rtt_frame_legality', pp, pp.where(), 'is_0rtt() test present', '0-RTT frame legality test is gone')
+    why = zero_rtt_illegal_frames(ctx, pp, (('Crypto', None), ('Close', 'Application')))
+    ctx.check(not why, 'f', 'zero_rtt_frame_legality', pp, pp.where(), 'in a 0-RTT packet Crypto and Close(Application) frames always end in PROTOCOL_VIOLATION', '0-RTT frame legality: ' + '; '.join(why))
     # server-only / client-only frames
     srv = [br for br in branches(F, pp) if br.desc[0] == 'call' and br.desc[1] == 'ConnectionSide::is_server']
     ctx.check(len(srv) >= 2, 'f', 'role_restricted_frames', pp, pp.where(), '%d is_server() tests' % len(srv), 'HANDSHAKE_DONE / role checks changed')
     ctx.floor('f', 'legality_error_sites', n, 16)
+
+
+def zero_rtt_illegal_frames(ctx, pp, illegal):
+    """for every (Frame variant, Close sub-variant|None) of `illegal`: with header.is_0rtt() true and the frame being that variant, the
+    frame's arm of the main dispatch is either never entered or cannot get past PROTOCOL_VIOLATION.  Path-sensitive walk over the CFG in
+    which the is_0rtt branches take their true edge and every switch on the frame's discriminant takes the variant's edge."""
+    F = ctx.facts
+    why = []
+    fr = F.adt('frame::Frame')
+    fv = {v['name']: int(v['discr']) for v in fr['variants']}
+    cv = {v['name']: int(v['discr']) for v in F.adt('frame::Close')['variants']}
+    brs = branches(F, pp)
+    z = [br for br in brs if peel_not(br.desc)[0][0] == 'call' and peel_not(br.desc)[0][1] == 'Header::is_0rtt']
+    if not z:
+        return ['no is_0rtt() test in process_payload']
+    # the frame: scrutinee of the main dispatch (the widest switch over Frame discriminants)
+    disp = [br for br in brs if br.desc[0] == 'discr' and all(v in fv.values() for v, _ in br.edges if v is not None) and len({t for _, t in br.edges}) >= len(fv) // 2]
+    if len({br.desc for br in disp}) != 1:
+        return ['main frame dispatch not identified (%d candidates)' % len(disp)]
+    main = max(disp, key=lambda br: len(br.edges))
+    frame = main.desc[1]
+    errs = err_code_calls(ctx, pp, 'PROTOCOL_VIOLATION')
+    heads = {c.bb for c in pp.calls() if c.is_('Iterator::next') and walk_has(frame, c)}
+    if not heads:
+        return ['the frame iterator step was not found']
+    by_bb = {br.bb: br for br in brs}
+    for var, sub in illegal:
+        if var not in fv or (sub is not None and sub not in cv):
+            why.append('variant %s/%s does not exist' % (var, sub))
+            continue
+
+        def choose(bb):
+            br = by_bb.get(bb)
+            if br is None:
+                return None
+            d, neg = peel_not(br.desc)
+            if d[0] == 'call' and d[1] == 'Header::is_0rtt':
+                return [br.target(0 if neg else 1)]
+            if d[0] == 'discr' and d[1] == frame:
+                return [br.target(fv[var])]
+            if sub is not None and d[0] == 'discr' and d[1] == ('field', ('variant', frame, var), '0'):
+                return [br.target(cv[sub])]
+            return None
+        r = _reach_constrained(pp, [0], choose, avoid=errs)
+        arm = main.target(fv[var])
+        if main.bb not in r:
+            continue        # rejected before the dispatch
+        after = _reach_constrained(pp, [arm], choose, avoid=errs)
+        if after & (set(pp.return_blocks()) | heads):
+            why.append('a %s%s frame in a 0-RTT packet is processed (its arm at bb%d completes without PROTOCOL_VIOLATION)' % (var, '(%s)' % sub if sub else '', arm))
+    return why
+
+
+def walk_has(d, call):
+    """descriptor d contains the result of call site `call`"""
+    return any(x[0] == 'call' and len(x) > 4 and x[4] == call.bb and x[1] == short(call.f) for x in walk(d))
 
 
 def rule_g(ctx):
